@@ -42,6 +42,9 @@ enum Scenario {
     /// WebSocketClient: a pushed notify reusing the id of in-flight call `j`, in every state of the notification
     /// subscription (it goes to the subscriber if there is a live one, is dropped otherwise, and never completes a call)
     WsSub { n: usize, perm: Vec<usize>, j: usize, pos: usize, sub: Sub },
+    /// WebSocketClient: the reply is delivered while the (20 KB) request's own WebSocket frame is still being
+    /// written (the peer has accepted `k` bytes and reads the request id out of the partial, masked frame)
+    EarlyWs { k: usize, queued_behind: bool },
 }
 
 #[derive(Clone, Copy, Debug, PartialEq)]
@@ -176,6 +179,11 @@ fn scenarios(tier: Tier) -> Vec<Scenario> {
                 v.push(Scenario::BigBatch { kind: Some(Kind::Async), n, order });
                 v.push(Scenario::BigBatch { kind: Some(Kind::Ws), n, order });
             }
+        }
+    }
+    for k in [32usize, 33, 56, 100, 4096, 8192, 19_000] {
+        for queued_behind in [false, true] {
+            v.push(Scenario::EarlyWs { k, queued_behind });
         }
     }
     for n in 1..=3usize {
@@ -414,6 +422,85 @@ async fn run_early(k: usize, queued_behind: bool) -> (Bad, u64) {
 }
 
 
+
+
+/// Request id inside the first bytes of a client-to-server (masked) WebSocket binary frame.
+fn ws_peek_request_id(raw: &[u8]) -> Option<u64> {
+    if raw.len() < 2 || raw[0] & 0x0f != 0x2 || raw[1] & 0x80 == 0 {
+        return None;
+    }
+    let hdr = match raw[1] & 0x7f {
+        126 => 4,
+        127 => 10,
+        _ => 2,
+    };
+    let mask = raw.get(hdr..hdr + 4)?;
+    let payload = raw.get(hdr + 4..hdr + 4 + 24)?;
+    let un: Vec<u8> = payload.iter().enumerate().map(|(i, b)| b ^ mask[i % 4]).collect();
+    // REPE header: spec magic at 8..10, id at 16..24
+    if u16::from_le_bytes([un[8], un[9]]) != crate::frames::SPEC {
+        return None;
+    }
+    Some(u64::from_le_bytes(un[16..24].try_into().ok()?))
+}
+
+/// WebSocketClient: the peer answers as soon as it can read the request id, while the request's
+/// own frame is still being written.
+async fn run_early_ws(k: usize, queued_behind: bool) -> (Bad, u64) {
+    let mut bad = Bad::new();
+    let Conn { cli, mut peer, .. } = clients::connect(Kind::Ws).await;
+    peer.ctl().a_to_b.set_credit(Some(k));
+    let big = tokio::spawn(cli.call(1, None, 20_000));
+    memstream::settle().await;
+    let second = if queued_behind { Some(tokio::spawn(cli.call(2, None, 0))) } else { None };
+    memstream::settle().await;
+    let mut flags = 4096;
+    let raw = peer.ctl().a_to_b.peek();
+    let Some(id) = ws_peek_request_id(&raw) else {
+        return (vec![("C04:harness".into(), format!("WebSocketClient: cannot read the request id from the first {} bytes of the frame (credit {k})", raw.len()))], 0);
+    };
+    if big.is_finished() {
+        return (vec![("C04:early:no-stall".into(), "WebSocketClient: the large call finished before any reply".into())], 0);
+    }
+    if peer.ctl().a_to_b.stalls() > 0 {
+        flags |= 16;
+    }
+    // the reply travels in the other direction and is not held up by the stalled request
+    peer.send(&clients::reply(id)).await;
+    memstream::settle().await;
+    peer.ctl().a_to_b.set_credit(None);
+    memstream::settle().await;
+    let reqs = match peer.drain_requests().await {
+        Ok(r) => r,
+        Err(e) => return (vec![("C04:request-stream-malformed".into(), format!("WebSocketClient early reply: {e}"))], flags),
+    };
+    if clients::tag_ids(&reqs).get(&1) != Some(&id) {
+        bad.push(("C04:harness".into(), format!("WebSocketClient: id read from the partial frame ({id}) differs from the completed request's ({:?})", clients::tag_ids(&reqs).get(&1))));
+    }
+    let r = clients::join_call(big).await;
+    if r != Res::Id(id) {
+        bad.push((
+            format!("C04:early-reply-lost:{}", if r == Res::Hang { "hang" } else { "other" }),
+            format!("WebSocketClient: the reply to request {id} arrived while its frame was still being written ({k} bytes accepted); the call returned {r:?}"),
+        ));
+    }
+    if let Some(h2) = second {
+        match clients::tag_ids(&reqs).get(&2).copied() {
+            Some(id2) => {
+                peer.send(&clients::reply(id2)).await;
+                let r2 = clients::join_call(h2).await;
+                if r2 != Res::Id(id2) {
+                    bad.push(("C04:wrong-response:queued".into(), format!("WebSocketClient: the call queued behind the blocked write returned {r2:?}, expected id {id2}")));
+                }
+            }
+            None => bad.push(("C04:requests-missing".into(), "WebSocketClient: the call queued behind the blocked write never reached the peer".into())),
+        }
+    }
+    if cli.pending() != 0 {
+        bad.push(("C04:pending-residue".into(), format!("WebSocketClient early reply: {} pending entries after all calls returned", cli.pending())));
+    }
+    (bad, flags)
+}
 
 /// Another user of the same connection forwards a prebuilt message whose id equals the id of
 /// a call in flight. Whatever happens to the forward, every call must still get the response
@@ -949,10 +1036,11 @@ pub fn run(tier: Tier) -> ! {
                     Scenario::BigBatch { kind: None, n, order } => run_big_batch_blocking(*n, *order),
                     Scenario::Gated { kind, a_notify, refused, b, order } => run_gated(*kind, *a_notify, *refused, *b, order).await,
                     Scenario::WsSub { n, perm, j, pos, sub } => run_perm_sub(Kind::Ws, *n, perm, Extra::NotifyReuse(*j), *pos, false, Some(*sub)).await,
+                    Scenario::EarlyWs { k, queued_behind } => run_early_ws(*k, *queued_behind).await,
                 }
             });
             *n += 1;
-            for bit in 0..12 {
+            for bit in 0..13 {
                 if flags & (1 << bit) != 0 {
                     *flagc.entry(bit).or_insert(0) += 1;
                 }
@@ -979,7 +1067,7 @@ pub fn run(tier: Tier) -> ! {
         ctx.violation(k, w, json!({"scenario": format!("{:?}", all[i]), "index": i, "tier": tier.name()}));
     }
     let g = |b: u64| flagc.get(&b).copied().unwrap_or(0);
-    if !ctx.has_violation() && (g(0) == 0 || g(2) == 0 || g(3) == 0 || g(4) == 0 || g(5) == 0 || g(6) == 0 || g(9) == 0 || g(10) == 0 || g(11) == 0) {
+    if !ctx.has_violation() && (g(0) == 0 || g(2) == 0 || g(3) == 0 || g(4) == 0 || g(5) == 0 || g(6) == 0 || g(9) == 0 || g(10) == 0 || g(11) == 0 || g(12) == 0) {
         ctx.machinery("vacuous exploration: a scenario family never ran");
     }
     let coverage = json!({
@@ -1000,8 +1088,9 @@ pub fn run(tier: Tier) -> ! {
             "caller_preempted_inside_its_call": g(9),
             "preempted_caller_refused_as_too_large": g(10),
             "notify_reusing_an_id_under_other_subscription_states": g(11),
+            "websocket_client_early_reply_scenarios": g(12),
         },
-        "rule": "blocking Client over loopback TCP with n caller threads (n <= 4, thorough 5): every reply permutation x extra frame x position, and batch_json under every reply order; for both tokio clients over an in-memory stream on a paused single-threaded runtime: n concurrent calls, every permutation of the n replies, one extra frame (unknown id / duplicate of reply j / notify reusing in-flight id j) at every position, delivered one by one or in one burst; batch_json under every reply order; AsyncClient replies injected while the request's write is blocked after 48+k bytes; a caller (call or notify, on its own OS thread) parked inside its own call at body serialization while another call is issued and answered / left pending / timed out, then resumed (or refused locally as larger than the WebSocket client's assumed peer limit), then a third call, the pending ones answered in every order: request ids on the wire pairwise distinct and every call gets its own response; WebSocketClient: the notify reusing an in-flight id (n <= 3, every reply order, victim and position) with the subscription unsubscribed / its receiver dropped / re-subscribed / re-subscribed over a stale slot",
+        "rule": "blocking Client over loopback TCP with n caller threads (n <= 4, thorough 5): every reply permutation x extra frame x position, and batch_json under every reply order; for both tokio clients over an in-memory stream on a paused single-threaded runtime: n concurrent calls, every permutation of the n replies, one extra frame (unknown id / duplicate of reply j / notify reusing in-flight id j) at every position, delivered one by one or in one burst; batch_json under every reply order; AsyncClient replies injected while the request's write is blocked after 48+k bytes, WebSocketClient replies injected while the request's WebSocket frame is blocked after k bytes (the peer unmasks the id from the partial frame); a caller (call or notify, on its own OS thread) parked inside its own call at body serialization while another call is issued and answered / left pending / timed out, then resumed (or refused locally as larger than the WebSocket client's assumed peer limit), then a third call, the pending ones answered in every order: request ids on the wire pairwise distinct and every call gets its own response; WebSocketClient: the notify reusing an in-flight id (n <= 3, every reply order, victim and position) with the subscription unsubscribed / its receiver dropped / re-subscribed / re-subscribed over a stale slot",
     });
     ctx.finish(
         "model_checking",
@@ -1031,6 +1120,7 @@ pub fn replay(case: &Value) -> Result<(), String> {
             Scenario::BigBatch { kind: None, n, order } => run_big_batch_blocking(*n, *order),
             Scenario::Gated { kind, a_notify, refused, b, order } => run_gated(*kind, *a_notify, *refused, *b, order).await,
             Scenario::WsSub { n, perm, j, pos, sub } => run_perm_sub(Kind::Ws, *n, perm, Extra::NotifyReuse(*j), *pos, false, Some(*sub)).await,
+            Scenario::EarlyWs { k, queued_behind } => run_early_ws(*k, *queued_behind).await,
         }
     });
     if b.is_empty() { Ok(()) } else { Err(b.into_iter().map(|(k, w)| format!("{k}: {w}")).collect::<Vec<_>>().join("\n")) }
